@@ -153,16 +153,35 @@ func (w *world) plan(h uint64) vset {
 	}
 	d := int((h - w.init - 1) % 5)
 	n := w.cfg.N
+	if w.cfg.ValChange == 3 {
+		// total power and set size change from height to height
+		if d%2 == 1 && n < 7 {
+			n++
+		} else if d%3 == 2 && n > 1 {
+			n--
+		}
+	}
 	keys := make([]int, n)
 	pows := make([]uint64, n)
 	for i := 0; i < n; i++ {
+		base := w.cfg.Powers[i%w.cfg.N]
 		switch w.cfg.ValChange {
 		case 1: // powers rotate, keys stay
 			keys[i] = i
-			pows[i] = w.cfg.Powers[(i+d)%n]
+			pows[i] = w.cfg.Powers[(i+d)%w.cfg.N]
+		case 3: // keys shift, powers scale (total changes), size changes
+			keys[i] = (i + d) % 9
+			if base < 1<<40 {
+				pows[i] = base * uint64(d+1)
+			} else {
+				pows[i] = base / uint64(d+1)
+			}
+			if pows[i] == 0 {
+				pows[i] = 1
+			}
 		default: // keys shift through the pool (sets differ at every height), powers rotate
 			keys[i] = (i + d) % 9
-			pows[i] = w.cfg.Powers[(i+2*d)%n]
+			pows[i] = w.cfg.Powers[(i+2*d)%w.cfg.N]
 		}
 	}
 	return w.register(mkVset(keys, pows))
@@ -177,6 +196,9 @@ func (w *world) altSet(h uint64) vset {
 	for i := 0; i < n; i++ {
 		keys[i] = (i + 3 + int(h%3)) % msKeyPool
 		pows[i] = w.cfg.Powers[i]
+		if w.cfg.Powers[i] < 1<<40 {
+			pows[i] = w.cfg.Powers[i]*2 + uint64(i)
+		}
 	}
 	return w.register(mkVset(keys, pows))
 }
